@@ -109,7 +109,20 @@ type Output struct {
 	Violations []Violation             `json:"violations"`
 	Extra      map[string]any          `json:"extra,omitempty"`
 	Sets       map[string][]string     `json:"sets,omitempty"`
+	Max        map[string]float64      `json:"max,omitempty"`
 	Completed  bool                    `json:"completed"`
+}
+
+// SetMax records a measurement that the driver merges across shards by maximum.
+func SetMax(key string, v float64) {
+	mu.Lock()
+	defer mu.Unlock()
+	if out.Max == nil {
+		out.Max = map[string]float64{}
+	}
+	if v > out.Max[key] {
+		out.Max[key] = v
+	}
 }
 
 var sets = map[string]map[string]struct{}{}
@@ -304,14 +317,29 @@ func safeCheck[C any](tg *Target[C], c C) (info Info, err error) {
 	return tg.Check(c)
 }
 
+// trimStack keeps the frames inside the library and the harness and removes
+// everything that varies between two runs of the same case (argument values,
+// pc offsets, goroutine ids): rapid's shrinker insists on identical messages.
 func trimStack(b []byte) string {
 	lines := strings.Split(string(b), "\n")
 	var keep []string
 	for _, l := range lines {
-		if strings.Contains(l, "/repo/") || strings.Contains(l, "emirpasic") || strings.Contains(l, "verif/harness") {
-			keep = append(keep, strings.TrimSpace(l))
+		if !(strings.Contains(l, "/repo/") || strings.Contains(l, "emirpasic") || strings.Contains(l, "verif/harness")) {
+			continue
 		}
-		if len(keep) >= 14 {
+		if strings.Contains(l, "internal/pbt") {
+			continue
+		}
+		l = strings.TrimSpace(l)
+		if strings.HasPrefix(l, "/") { // file:line +0x...
+			if i := strings.Index(l, " +0x"); i >= 0 {
+				l = l[:i]
+			}
+		} else if i := strings.LastIndex(l, "("); i >= 0 { // function(args)
+			l = l[:i]
+		}
+		keep = append(keep, l)
+		if len(keep) >= 12 {
 			break
 		}
 	}
@@ -384,7 +412,7 @@ func Run[C any](t *testing.T, tg Target[C]) {
 			if failed {
 				return // shrinking phase: do not count
 			}
-			account(tg.Name, b, info)
+			account(tg.Name, b, info, true)
 		})
 	})
 	if lastErr != nil {
@@ -406,28 +434,33 @@ func firstLine(s string) string {
 	return s
 }
 
-func account(target string, b []byte, info Info) {
+// account records one passing case.  b is its canonical JSON, or a function
+// producing it lazily (enumerations marshal only the cases kept as samples).
+func account(target string, b []byte, info Info, hashIt bool) {
+	accountLazy(target, func() []byte { return b }, info, hashIt)
+}
+
+func accountLazy(target string, js func() []byte, info Info, hashIt bool) {
 	mu.Lock()
 	defer mu.Unlock()
 	s := stats(target)
 	s.Evaluations++
 	if s.Evaluations == 1 {
-		addSample(s, target, "first", b)
+		addSample(s, target, "first", js())
 	}
 	if info.NonTrivial {
 		s.NonTrivial++
-		h := hashOf(target, b)
-		if _, dup := hashes[h]; !dup {
-			hashes[h] = struct{}{}
+		if hashIt {
+			hashes[hashOf(target, js())] = struct{}{}
 		}
 		if s.NonTrivial == 1 {
-			addSample(s, target, "first non-trivial", b)
+			addSample(s, target, "first non-trivial", js())
 		}
 	}
 	for _, l := range info.Labels {
 		s.Labels[l]++
 		if s.Labels[l] == 1 && len(s.Samples) < 6 {
-			addSample(s, target, "first with label "+l, b)
+			addSample(s, target, "first with label "+l, js())
 		}
 	}
 }
@@ -502,17 +535,17 @@ func Enumerate[C any](t *testing.T, tg Target[C], note string, iterate func(yiel
 	var firstJSON []byte
 	count := int64(0)
 	iterate(func(c C) bool {
-		b, _ := json.Marshal(c)
+		js := func() []byte { b, _ := json.Marshal(c); return b }
 		if tg.Before != nil {
-			tg.Before(b)
+			tg.Before(js())
 		}
 		info, err := safeCheck(&tg, c)
 		if err != nil {
-			firstErr, firstJSON = err, b
+			firstErr, firstJSON = err, js()
 			return false
 		}
 		count++
-		account(tg.Name, b, info)
+		accountLazy(tg.Name, js, info, false) // enumerated cases are distinct by construction
 		return true
 	})
 	mu.Lock()
